@@ -63,6 +63,7 @@ def _mixin(base):
         def __init__(self):
             super().__init__()
             self.log = []
+            self.saves = []
             self._in_fill = False
 
         # --- count handler invocations made by the expect loop (without touching the loop itself)
@@ -106,7 +107,8 @@ def _mixin(base):
 
         def _captureSave(self, data, fp, *args, **kw):
             self.log.append(("Save",))
-            return self
+            self.saves.append(len(self.log) - 1)
+            return super()._captureSave(data, fp, *args, **kw)
 
         def updateRectangle(self, x, y, width, height, data):
             super().updateRectangle(x, y, width, height, data)
@@ -190,7 +192,7 @@ def make_client(cfg: Cfg, tape: list, cls=None):
     if cfg.waiter and cfg.variant != 0:
         from twisted.internet.defer import Deferred
         c.deferred = Deferred()
-        c.deferred.addCallback(c._captureSave, io.BytesIO())
+        c.deferred.addCallback(c._captureSave, io.BytesIO(), format="png")
     return c
 
 
@@ -357,3 +359,43 @@ def same_final(real_final, model_final, variant):
     if variant == 0:
         r[4] = m[4] = None
     return r == m
+
+
+def run_script_real(cfg: Cfg, items):
+    """items: ("chunk", bytes) | ("capture", inc) | ("rcapture", x, y, w, h). -> result dict + captures"""
+    tape: list = []
+    vclient.reactor = Clock()
+    ref = [None]
+    captures = []
+    with Patches(cfg, ref):
+        c = make_client(cfg, tape)
+        ref[0] = c.log
+        crashed = None
+        for it in items:
+            try:
+                if it[0] == "chunk":
+                    c.dataReceived(it[1])
+                elif it[0] == "capture":
+                    fp = io.BytesIO()
+                    c.captureScreen(fp, bool(it[1]), format="png")
+                    captures.append((fp, None, len(c.log)))
+                else:
+                    fp = io.BytesIO()
+                    _, x, y, w, h = it
+                    d = c._capture(fp, False, x, y, x + w, y + h, format="png")
+                    captures.append((fp, (x, y, w, h), len(c.log)))
+            except Exception as e:  # noqa: BLE001
+                crashed = type(e).__name__ + ": " + str(e)[:80]
+                break
+    events = c.log     # not merged: positions matter here
+    out = []
+    from PIL import Image
+    for fp, region, pos in captures:
+        data = fp.getvalue()
+        img = None
+        if data:
+            im = Image.open(io.BytesIO(data)).convert("RGB")
+            img = (im.size, im.tobytes())
+        out.append({"region": region, "log_pos": pos, "image": img})
+    final = ("crashed", crashed) if crashed else ("idle", len(c._packet))
+    return {"events": events, "captures": out, "tape": tape, "final": final, "client": c}
